@@ -1,0 +1,85 @@
+//go:build verif
+
+package cmd
+
+import (
+	"context"
+	"log/slog"
+
+	"github.com/AdguardTeam/AdGuardDNS/internal/debugsvc"
+	"github.com/AdguardTeam/AdGuardDNS/internal/errcoll"
+	"github.com/AdguardTeam/AdGuardDNS/internal/metrics"
+	"github.com/AdguardTeam/AdGuardDNS/internal/websvc"
+	"github.com/AdguardTeam/golibs/logutil/slogutil"
+	"github.com/AdguardTeam/golibs/service"
+	"github.com/prometheus/client_golang/prometheus"
+	"gopkg.in/yaml.v2"
+)
+
+// Verification hooks for property C19: the production wiring of the linked-IP
+// proxy.  [VerifC19InitWeb] runs the unchanged [parseEnvironment],
+// [webConfig.validate], [builder.initTLSManager] and [builder.initWeb] (hence
+// [webConfig.toInternal], [linkedIPServer.toInternal], [websvc.New] and
+// [websvc.Service.Start]) on a configuration parsed from YAML and on the
+// environment of the process.
+
+// VerifC19Wired is what [builder.initWeb] has built and started.
+type VerifC19Wired struct {
+	// Service is the web service: started on its bind addresses, and the value
+	// the builder hands to the DNS service as the handler of non-DNS requests
+	// of the DNS-over-HTTPS servers.
+	Service *websvc.Service
+}
+
+// VerifC19InitWeb parses the environment of the process and confYAML (the web
+// section is read) and initializes and starts the web service the way [Main]
+// does.
+func VerifC19InitWeb(
+	ctx context.Context,
+	confYAML []byte,
+	l *slog.Logger,
+	errColl errcoll.Interface,
+) (w *VerifC19Wired, err error) {
+	envs, err := parseEnvironment()
+	if err != nil {
+		return nil, err
+	}
+
+	c := &configuration{}
+	err = yaml.Unmarshal(confYAML, c)
+	if err != nil {
+		return nil, err
+	}
+
+	err = c.Web.validate()
+	if err != nil {
+		return nil, err
+	}
+
+	b := &builder{
+		baseLogger:     l,
+		conf:           c,
+		debugRefrs:     debugsvc.Refreshers{},
+		env:            envs,
+		errColl:        errColl,
+		logger:         l.With(slogutil.KeyPrefix, "builder"),
+		mtrcNamespace:  metrics.Namespace(),
+		promRegisterer: prometheus.NewRegistry(),
+		sigHdlr: service.NewSignalHandler(&service.SignalHandlerConfig{
+			Logger:          l,
+			ShutdownTimeout: shutdownTimeout,
+		}),
+	}
+
+	err = b.initTLSManager(ctx)
+	if err != nil {
+		return nil, err
+	}
+
+	err = b.initWeb(ctx)
+	if err != nil {
+		return nil, err
+	}
+
+	return &VerifC19Wired{Service: b.webSvc}, nil
+}
